@@ -575,6 +575,21 @@ impl<'tcx> Cx<'tcx> {
                         cp.push(format!("\"file\":{}", esc(&tfile)));
                     }
                     cp.push(format!("\"expn\":{}", expn));
+                    if expn {
+                        // macro backtrace (innermost first): lets rules tell `debug_assert!` from `assert!` / `panic!`
+                        let names: Vec<String> = term
+                            .source_info
+                            .span
+                            .macro_backtrace()
+                            .filter_map(|d| match d.kind {
+                                rustc_span::ExpnKind::Macro(_, name) => Some(esc(name.as_str())),
+                                _ => None,
+                            })
+                            .collect();
+                        if !names.is_empty() {
+                            cp.push(format!("\"macros\":{}", jlist(&names)));
+                        }
+                    }
                     format!("{{{}}}", cp.join(","))
                 }
                 TerminatorKind::FalseEdge { real_target, .. } => {
